@@ -63,7 +63,7 @@ pub const WIDE_PATHS: [(&str, &str); 10] = [
 ];
 /// Tokens of every length 0..=8, among them pairs that differ in one byte
 /// only, in the first byte by the token length, and prefixes of one another.
-pub const TOKENS: [&[u8]; 14] = [
+pub const TOKENS: [&[u8]; 18] = [
     &[0x0A],
     &[0x0B, 0x0C],
     &[],
@@ -78,6 +78,12 @@ pub const TOKENS: [&[u8]; 14] = [
     &[1, 2, 3],
     &[3, 2, 1],
     &[0xFF, 0xFF, 0xFF, 0xFF],
+    // eight-byte tokens that are a short token behind zeros and a "length
+    // marker" byte (packed-integer comparisons lose the marker at 8 bytes)
+    &[0, 0, 0, 0, 0, 0, 1, 0x0A],
+    &[0, 0, 0, 0, 0, 1, 0x0B, 0x0C],
+    &[0, 0, 0, 0, 0, 0, 0, 0x0A],
+    &[0, 0, 0, 0, 0, 0, 0, 1],
 ];
 
 fn ep_name(i: u8) -> String {
@@ -807,7 +813,7 @@ pub fn run(ctx: &Ctx, rep: &mut Report, which: Which) {
         ctx,
         rep,
         "random-long-histories",
-        "random histories of up to 200 operations over 6 endpoints x 14 tokens (every length 0..=8, near-identical pairs, prefixes) x 10 paths (with '/', empty, non-ASCII, a leading empty segment, a trailing slash, segments of 255 and 256 bytes differing in the last byte) and limits {0,1,2,3,10,255}; compared with the model after every step; distinct by history hash",
+        "random histories of up to 200 operations over 6 endpoints x 18 tokens (every length 0..=8, near-identical pairs, prefixes) x 10 paths (with '/', empty, non-ASCII, a leading empty segment, a trailing slash, segments of 255 and 256 bytes differing in the last byte) and limits {0,1,2,3,10,255}; compared with the model after every step; distinct by history hash",
         n,
         || {
             (
